@@ -121,6 +121,14 @@ pub fn run(a: &Args) {
             class: format!("request:{}", class_of(&d)),
         });
     }
+    // the server id as configured by the operator (environment and file), through the application's reader and factory
+    cases.extend(crate::c12::config_id_cases(&mock, &mut rng));
+    // many logins hashing at the same moment: eight threads over the same inputs, every result judged like a sequential one
+    let inputs: Vec<(String, Vec<u8>, Vec<u8>)> = (0..if a.thorough { 40_000 } else { 4_000 }).map(|i| (format!("srv{}", i % 7), rng.bytes(16), rng.bytes(if i % 3 == 0 { 162 } else { 40 }))).collect();
+    let inputs = std::sync::Arc::new(inputs);
+    let handles: Vec<_> = (0..8).map(|t| { let inputs = inputs.clone(); std::thread::spawn(move || {
+        inputs.iter().enumerate().filter(|(i, _)| i % 8 == t).map(|(_, (id, s, p))| { let mut c = one(id, s, p); c.class = format!("concurrent:{}", c.class); c }).collect::<Vec<Case>>() }) }).collect();
+    for h in handles { cases.extend(h.join().expect("hash thread")); }
     write_cases(&a.out, &cases).expect("write cases");
     println!("c11: {} cases", cases.len());
 }
